@@ -181,6 +181,10 @@ def run_for(ex, s, st):
         elif items is not None: outs.extend(unrolled(ex, s, s1, items))
         elif isinstance(it, (PSeq,)) or (isinstance(it, ZV) and it.kind == 'val'): outs.extend(for_seq(ex, s, s1, it))
         elif isinstance(it, PSet): outs.extend(for_set(ex, s, s1, it))
+        elif type(it).__name__ == 'PRange':
+            # for i in range(n): the index loop over 0..n-1 (items are the indices themselves)
+            jj = fresh('j', IntSort())
+            outs.extend(for_seq(ex, s, s1, PSeq(z3.Lambda([jj], Val.I(jj)), z3.If(it.n < 0, IntVal(0), it.n), 'val')))
         elif type(it).__name__ == 'PItems':
             d = it.d
             def pair(x, d=d): return PTuple([ZV('str', x), ZV('val', Opt.v(d.arr[x]))])
